@@ -78,6 +78,6 @@ Section KronIndex.
     : option (list (list cx)) :=
     let us := map (lookup O user) basis in
     if Nat.eqb (2 ^ length us) (length rho)
-    then Some (kron_rows_index us (conj_transpose O (kron_rows_index us rho)))
+    then Some (conj_transpose O (kron_rows_index us (conj_transpose O (kron_rows_index us rho))))
     else None.
 End KronIndex.
